@@ -382,7 +382,8 @@ SPEC = Spec(
         "asserts. R01-ORDER: no undischarged iteration over a set-typed value or "
         "over a DictOfNamedArrays in supplied order in the code-generation "
         "modules; outputs are computed in a keyed topological order; operands are "
-        "generated in sorted name order."),
+        "generated in sorted name order. "
+        "R01-TABLES also: matmul writes each operand's batch axes as a SUFFIX of the pool of stacking indices (NumPy aligns shapes at the trailing end)."),
     not_decided=(
         "That any generated kernel computes NumPy's values, has the declared dtype, "
         "schedules or compiles: that needs executing generated code (and an OpenCL "
